@@ -49,6 +49,21 @@ structure Holds (cfg : Cfg) : Prop where
     Params cfg bs → WritesOK cfg ops →
     readSwampName cfg codec.toDecoder crc
       (compactSt cfg codec crc bs now' (runOps cfg codec crc bs (legacyState codec crc hdr blocks) (ops ++ [.close]))).1.file = .ok nm
+  /-- over a whole directory of engine-written files (duplicates allowed) the index is exactly the set
+      of their three-part names, each once -/
+  listing : ∀ (codec : Codec) (crc : Checksum) (bs : Nat) (dir : List (Bytes × Bytes)),
+    (∀ p ∈ dir, p.2 ≠ [] ∧ ∃ now ops st, createFileCfg cfg p.2 now = some st ∧ p.1 = (runOps cfg codec crc bs st ops).file) →
+    (∀ n, n ∈ Hv.Storage.listing cfg codec.toDecoder crc (dir.map (·.1)) ↔ (n ∈ dir.map (·.2) ∧ splits3 n = true)) ∧
+    (Hv.Storage.listing cfg codec.toDecoder crc (dir.map (·.1))).Nodup
+  /-- …and a legacy file (also after appends) under the name of its metadata entry -/
+  listedV2 : ∀ (codec : Codec) (crc : Checksum) (bs : Nat) (hdr : FileHeader) (blocks : List (List Entry))
+      (nm : Bytes) (rest : List Entry) (ops : List Op),
+    hdr.Valid → hdr.version = 2 → (∀ b ∈ blocks, GoodBlock b) →
+    blocks.flatten = ⟨opMetadata, metadataKey, nm⟩ :: rest → nm ≠ [] → Params cfg bs → WritesOK cfg ops →
+    scanListed cfg codec.toDecoder crc (runOps cfg codec crc bs (legacyState codec crc hdr blocks) ops).file
+      = if splits3 nm then some nm else none
+  /-- the interactive explorer shows the whole listing of a realm, however large -/
+  tuiComplete : ∀ sorted : List Bytes, tuiView cfg sorted = sorted
   /-- the explorer lists a file the engine wrote under exactly its name, iff the name has the
       three-part form; nothing else can appear for it -/
   listed : ∀ (codec : Codec) (crc : Checksum) (bs : Nat) (name : Bytes) (now : Nat) (st : St) (ops : List Op),
@@ -149,41 +164,6 @@ theorem compacted_v2 (cfg : Cfg) (codec : Codec) (crc : Checksum) (bs : Nat)
   have := (compaction_keeps_name cfg codec crc bs now' [] _ _ hI (by simp [hm]; exact hlen)).2
   simpa [hm] using this
 
-def Good (cfg : Cfg) : Prop :=
-  cfg.rejectsLongName = true ∧ cfg.v2Fallback = true
-
-theorem holds_of_good (cfg : Cfg) (hg : Good cfg) : Holds cfg := by
-  obtain ⟨h1, h2⟩ := hg
-  refine ⟨?_, ?_, ?_, ?_, ?_⟩
-  · intro codec crc bs name now st ops hc
-    obtain ⟨hst, hn⟩ := createFileCfg_some cfg h1 name now st hc
-    subst hst
-    exact name_roundtrip_v3 cfg codec crc bs name now hn ops
-  · intro codec crc bs hdr blocks nm rest ops hv hv2 hgb hfirst hne hP hW
-    exact name_roundtrip_v2_fallback cfg h2 codec crc bs hdr blocks nm rest ops hv hv2 hgb hfirst hne hP hW
-  · intro codec crc bs name now now' st ops hc hne hP hW
-    obtain ⟨hst, hn⟩ := createFileCfg_some cfg h1 name now st hc
-    subst hst
-    exact compacted_v3 cfg codec crc bs name now now' hn hne hP ops hW
-  · intro codec crc bs hdr blocks nm rest ops now' hv hv2 hgb hfirst hne hlen hP hW
-    exact compacted_v2 cfg codec crc bs hdr blocks nm rest ops now' hv hv2 hgb hfirst hne hlen hP hW
-  · intro codec crc bs name now st ops hc hne
-    obtain ⟨hst, hn⟩ := createFileCfg_some cfg h1 name now st hc
-    subst hst
-    exact scan_v3 cfg codec crc bs name now hn hne ops
-
-/-- `_partial`: for names shorter than 65536 bytes the V3 clauses hold whatever the facts are -/
-def HoldsPartial (cfg : Cfg) : Prop :=
-  ∀ (codec : Codec) (crc : Checksum) (bs : Nat) (name : Bytes) (now : Nat) (ops : List Op),
-    name.length < 2 ^ 16 →
-    readSwampName cfg codec.toDecoder crc (runOps cfg codec crc bs (createFile name now) ops).file = .ok name ∧
-    (name ≠ [] → scanListed cfg codec.toDecoder crc (runOps cfg codec crc bs (createFile name now) ops).file
-      = if splits3 name then some name else none)
-
-theorem holds_partial (cfg : Cfg) : HoldsPartial cfg :=
-  fun codec crc bs name now ops hn =>
-    ⟨name_roundtrip_v3 cfg codec crc bs name now hn ops, fun hne => scan_v3 cfg codec crc bs name now hn hne ops⟩
-
 /-- **listing_exact**: a directory whose files were each written by the engine under some name
     (non-empty, < 65536 bytes; any history, any number of files, duplicates allowed): the explorer's
     index contains exactly the names that have the three-part form — each once, nothing else. -/
@@ -212,8 +192,92 @@ theorem listing_exact (cfg : Cfg) (codec : Codec) (crc : Checksum) (bs : Nat) (d
     rw [hfile, scan_v3 cfg codec crc bs p.2 now hlen hne ops]
     simp [h3]
 
+/-- `scanFile` on a legacy file (also after appends by the current writer): its own fallback — the
+    first `__swamp_meta__` entry among the entries read, empty data allowed, errors tolerated — finds
+    the same name `LoadIndex`'s fallback reports (`name_roundtrip_v2_fallback`) -/
+theorem scan_v2 (cfg : Cfg) (codec : Codec) (crc : Checksum) (bs : Nat)
+    (hdr : FileHeader) (blocks : List (List Entry)) (nm : Bytes) (rest : List Entry) (ops : List Op)
+    (hv : hdr.Valid) (h2 : hdr.version = 2) (hg : ∀ b ∈ blocks, GoodBlock b)
+    (hfirst : blocks.flatten = ⟨opMetadata, metadataKey, nm⟩ :: rest) (hne : nm ≠ [])
+    (hP : Params cfg bs) (hW : WritesOK cfg ops) :
+    scanListed cfg codec.toDecoder crc (runOps cfg codec crc bs (legacyState codec crc hdr blocks) ops).file
+      = if splits3 nm then some nm else none := by
+  have hI := runOps_inv cfg codec crc bs hP [] ops _ _ false (legacyState_inv cfg codec crc bs hdr blocks hv h2 hg) hW
+  have hle := runOps_pending_le cfg codec crc bs hP [] ops _ _ _ (legacyState_inv cfg codec crc bs hdr blocks hv h2 hg) hW
+  obtain ⟨⟨blocks', ⟨⟨hdr', hfile, hv', hn'⟩, hgood'⟩, hacc⟩, _, _⟩ := hI
+  have hp0 : (legacyState codec crc hdr blocks).pending = [] := by simp [legacyState, St.pending]
+  rw [hp0] at hle
+  simp only [List.length_nil, Nat.zero_add] at hle
+  obtain ⟨e, he⟩ := prefix_of_append_eq _ _ _ _ hacc hle
+  have hread : readBlocksP cfg codec.toDecoder crc (renderBlocks codec crc blocks') = (blocks'.flatten, none) := by
+    have := readBlocksP_blocks cfg codec crc blocks' [] hgood'
+    rw [List.append_nil, readBlocksP_nil] at this
+    simpa using this
+  have hemp : nm.isEmpty = false := by cases nm with | nil => exact absurd rfl hne | cons _ _ => rfl
+  unfold scanListed scanName
+  rw [hfile]
+  unfold render
+  rw [openReader_prefix hdr' [] _ hv' hn']
+  simp only [List.isEmpty_nil, if_true]
+  rw [drop_dataStart hdr' [] _ hn', hread, he, hfirst]
+  simp [scanMetaName_cons, hemp]
+
+/-- the Load self-heal `CompactFromIndex(…, name, index)`: the rewritten file answers the name it was given -/
+theorem compactFromIndex_keeps_given_name (cfg : Cfg) (codec : Codec) (crc : Checksum) (bs now : Nat) (name : Bytes)
+    (idx : Index) (st : St) (hn : name.length < 2 ^ 16) :
+    readSwampName cfg codec.toDecoder crc (compactFromIndexSt cfg codec crc bs now name idx st).1.file = .ok name := by
+  have hcf : createFileCfg cfg name now = some (createFile name now) := by
+    unfold createFileCfg
+    rw [if_neg]
+    simp only [Bool.and_eq_true, decide_eq_true_eq, not_and, Nat.not_lt]
+    intro _; omega
+  simp only [compactFromIndexSt, hcf]
+  exact name_roundtrip_v3 cfg codec crc bs name now hn _
+
+def Good (cfg : Cfg) : Prop :=
+  cfg.rejectsLongName = true ∧ cfg.v2Fallback = true ∧ cfg.tuiListsAll = true
+
+theorem holds_of_good (cfg : Cfg) (hg : Good cfg) : Holds cfg := by
+  obtain ⟨h1, h2, h3⟩ := hg
+  refine ⟨?_, ?_, ?_, ?_, ?_, fun codec crc bs hdr blocks nm rest ops hv hv2 hgb hf hne hP hW => scan_v2 cfg codec crc bs hdr blocks nm rest ops hv hv2 hgb hf hne hP hW, tuiView_all cfg h3, ?_⟩
+  · intro codec crc bs name now st ops hc
+    obtain ⟨hst, hn⟩ := createFileCfg_some cfg h1 name now st hc
+    subst hst
+    exact name_roundtrip_v3 cfg codec crc bs name now hn ops
+  · intro codec crc bs hdr blocks nm rest ops hv hv2 hgb hfirst hne hP hW
+    exact name_roundtrip_v2_fallback cfg h2 codec crc bs hdr blocks nm rest ops hv hv2 hgb hfirst hne hP hW
+  · intro codec crc bs name now now' st ops hc hne hP hW
+    obtain ⟨hst, hn⟩ := createFileCfg_some cfg h1 name now st hc
+    subst hst
+    exact compacted_v3 cfg codec crc bs name now now' hn hne hP ops hW
+  · intro codec crc bs hdr blocks nm rest ops now' hv hv2 hgb hfirst hne hlen hP hW
+    exact compacted_v2 cfg codec crc bs hdr blocks nm rest ops now' hv hv2 hgb hfirst hne hlen hP hW
+  · intro codec crc bs dir hw
+    apply listing_exact cfg codec crc bs dir
+    intro p hp
+    obtain ⟨hne, now, ops, st, hc, hf⟩ := hw p hp
+    obtain ⟨hst, hn⟩ := createFileCfg_some cfg h1 p.2 now st hc
+    subst hst
+    exact ⟨hne, hn, now, ops, hf⟩
+  · intro codec crc bs name now st ops hc hne
+    obtain ⟨hst, hn⟩ := createFileCfg_some cfg h1 name now st hc
+    subst hst
+    exact scan_v3 cfg codec crc bs name now hn hne ops
+
+/-- `_partial`: for names shorter than 65536 bytes the V3 clauses hold whatever the facts are -/
+def HoldsPartial (cfg : Cfg) : Prop :=
+  ∀ (codec : Codec) (crc : Checksum) (bs : Nat) (name : Bytes) (now : Nat) (ops : List Op),
+    name.length < 2 ^ 16 →
+    readSwampName cfg codec.toDecoder crc (runOps cfg codec crc bs (createFile name now) ops).file = .ok name ∧
+    (name ≠ [] → scanListed cfg codec.toDecoder crc (runOps cfg codec crc bs (createFile name now) ops).file
+      = if splits3 name then some name else none)
+
+theorem holds_partial (cfg : Cfg) : HoldsPartial cfg :=
+  fun codec crc bs name now ops hn =>
+    ⟨name_roundtrip_v3 cfg codec crc bs name now hn ops, fun hne => scan_v3 cfg codec crc bs name now hn hne ops⟩
+
 /-! non-vacuity -/
-example : Good goodCfg := ⟨rfl, rfl⟩
+example : Good goodCfg := ⟨rfl, rfl, rfl⟩
 example : splits3 [0x61, 0x2f, 0x62, 0x2f, 0x63] = true := by decide   -- "a/b/c"
 example : splits3 [0x61, 0x2f, 0x62] = false := by decide              -- "a/b"
 
@@ -269,6 +333,12 @@ theorem not_holds_of_noFallback (cfg : Cfg) (h : cfg.v2Fallback = false) : ¬ Ho
   rw [ho] at this
   simp [hver, h] at this
 
+theorem not_holds_of_tuiOnePage (cfg : Cfg) (h : cfg.tuiListsAll = false) : ¬ Holds cfg := by
+  intro hh
+  have := congrArg List.length (hh.tuiComplete (List.replicate 1001 []))
+  rw [tuiView_truncates cfg h, List.length_replicate] at this
+  omega
+
 /-! ### Decision over the extracted facts -/
 
 structure Facts where
@@ -287,10 +357,12 @@ structure Facts where
   openRecreatesShortFile : Tri
   /-- `Explorer.Scan` clears the index before every directory walk -/
   scanClearsIndex : Tri
+  /-- the TUI pages through ListSwamps (or uses ListAllSwamps) when it opens a realm -/
+  tuiListsAll : Tri
   deriving Repr
 
 def cfgOf (f : Facts) : Cfg :=
-  { goodCfg with v2Fallback := f.v2Fallback.isYes, rejectsLongName := f.rejectsLongName.isYes }
+  { goodCfg with v2Fallback := f.v2Fallback.isYes, rejectsLongName := f.rejectsLongName.isYes, tuiListsAll := f.tuiListsAll.isYes }
 
 def shapeOk (f : Facts) : Bool :=
   f.nameLenBytes == some 2 && f.writesNameAfterHeader == .yes && f.nameReadGuardedByV3 == .yes &&
@@ -299,11 +371,12 @@ def shapeOk (f : Facts) : Bool :=
 
 def findings (f : Facts) : List String :=
   (if f.rejectsLongName == .no then ["C29-long-name-truncated"] else []) ++
-  (if f.v2Fallback == .no then ["C29-no-v2-fallback"] else [])
+  (if f.v2Fallback == .no then ["C29-no-v2-fallback"] else []) ++
+  (if f.tuiListsAll == .no then ["C29-tui-truncates-large-realm"] else [])
 
 def classify (f : Facts) : Verdict :=
   if !shapeOk f then .undetermined "name-area facts (NameLength width, V3 guard, DataStartOffset, metadata fallbacks, SplitN, short-file re-creation on open, index cleared per scan) differ from the model"
-  else if f.rejectsLongName == .unknown || f.v2Fallback == .unknown then .undetermined "createNewFile / ReadSwampName pattern not recognised"
+  else if f.rejectsLongName == .unknown || f.v2Fallback == .unknown || f.tuiListsAll == .unknown then .undetermined "createNewFile / ReadSwampName pattern not recognised"
   else if !(findings f).isEmpty then .violated (findings f)
   else .holds
 
@@ -315,7 +388,7 @@ theorem classify_sound (f : Facts) : (classify f).Sound (Holds (cfgOf f)) (Holds
     · trivial
     · rename_i hu
       simp only [Bool.or_eq_true, beq_iff_eq, not_or] at hu
-      obtain ⟨hu1, hu2⟩ := hu
+      obtain ⟨⟨hu1, hu2⟩, hu3⟩ := hu
       split
       · rename_i hf
         refine ⟨?_, holds_partial _⟩
@@ -323,10 +396,13 @@ theorem classify_sound (f : Facts) : (classify f).Sound (Holds (cfgOf f)) (Holds
         · exact not_holds_of_acceptsLongName _ (by simp [cfgOf, h1, Tri.isYes])
         · by_cases h2 : f.v2Fallback = .no
           · exact not_holds_of_noFallback _ (by simp [cfgOf, h2, Tri.isYes])
-          · exfalso; simp [findings, h1, h2] at hf
+          · by_cases h3 : f.tuiListsAll = .no
+            · exact not_holds_of_tuiOnePage _ (by simp [cfgOf, h3, Tri.isYes])
+            · exfalso; simp [findings, h1, h2, h3] at hf
       · rename_i hf
         have h1 : f.rejectsLongName = .yes := by cases h : f.rejectsLongName <;> simp_all [findings]
         have h2 : f.v2Fallback = .yes := by cases h : f.v2Fallback <;> simp_all [findings]
-        exact holds_of_good _ ⟨by simp [cfgOf, h1, Tri.isYes], by simp [cfgOf, h2, Tri.isYes]⟩
+        have h3 : f.tuiListsAll = .yes := by cases h : f.tuiListsAll <;> simp_all [findings]
+        exact holds_of_good _ ⟨by simp [cfgOf, h1, Tri.isYes], by simp [cfgOf, h2, Tri.isYes], by simp [cfgOf, h3, Tri.isYes]⟩
 
 end Hv.C29
